@@ -209,11 +209,11 @@ pub fn k_make_room_f8_c5<N: Nd>(nd: &mut N) {
 }
 
 harnesses! {
-    /// @meta props=C01,C05,C06 tier=quick kind=K stage2=pub timeout=1500 mem=12 unwind=11 bounds="fasta::Reader::search (+increment_record) from a header at every offset of every window (every file offset) of every file <= 8 bytes with the end of input in view; <= 6 line ends per record"
+    /// @meta props=C01,C05,C06,C04:t,C03:t tier=quick kind=K stage2=pub timeout=1500 mem=12 unwind=11 bounds="fasta::Reader::search (+increment_record) from a header at every offset of every window (every file offset) of every file <= 8 bytes with the end of input in view; <= 6 line ends per record"
     fak_search_eof_f8 => k_search_eof_f8;
-    /// @meta props=C01,C06 tier=quick kind=K stage2=pub timeout=1500 mem=12 unwind=11 bounds="fasta::Reader::search on a completely filled buffer of capacity 5 at every offset of every 8-byte file: complete record vs resumable state, look-ahead byte"
+    /// @meta props=C01,C06:t,C03:t tier=quick kind=K stage2=pub timeout=1500 mem=12 unwind=11 bounds="fasta::Reader::search on a completely filled buffer of capacity 5 at every offset of every 8-byte file: complete record vs resumable state, look-ahead byte"
     fak_search_full_f8_c5 => k_search_full_f8_c5;
-    /// @meta props=C03,C09,C06 tier=quick kind=K timeout=1500 mem=12 unwind=11 bounds="fasta::Reader::make_room on a full buffer of capacity 5 over every 8-byte file, every record start, search position and <= 2 recorded line ends"
+    /// @meta props=C03,C06,C09:t tier=quick kind=K timeout=1500 mem=12 unwind=11 bounds="fasta::Reader::make_room on a full buffer of capacity 5 over every 8-byte file, every record start, search position and <= 2 recorded line ends"
     fak_make_room_f8_c5 => k_make_room_f8_c5;
 }
 
@@ -298,7 +298,7 @@ pub fn k_init_f5_c4<N: Nd>(nd: &mut N) {
 
 harnesses! {
     @reg registry2;
-    /// @meta props=C01,C05,C17,C03,C06 tier=quick kind=K stage2=pub timeout=1500 mem=12 unwind=6 unwindset="first_byte:6;seq_io::fill_buf:4" bounds="fasta::Reader::init from New on every file <= 4 bytes at capacity 3 (blank prefix crossing one refill), whole reads"
+    /// @meta props=C01,C17,C05:t,C03:t,C06:t tier=quick kind=K stage2=pub timeout=1500 mem=12 unwind=6 unwindset="first_byte:6;seq_io::fill_buf:4" bounds="fasta::Reader::init from New on every file <= 4 bytes at capacity 3 (blank prefix crossing one refill), whole reads"
     fak_init_f4_c3 => k_init_f4_c3;
     /// @meta props=C01,C05,C17,C03,C06 tier=thorough kind=K stage2=pub timeout=3000 mem=16 unwind=8 unwindset="first_byte:7;seq_io::fill_buf:4" bounds="fasta::Reader::init from New on every file <= 5 bytes at capacity 3 (blank prefix crossing up to 2 refills), whole reads"
     fak_init_f5_c3 => k_init_f5_c3;
@@ -372,6 +372,6 @@ pub fn k_seek_f8_c4<N: Nd>(nd: &mut N) {
 
 harnesses! {
     @reg registry3;
-    /// @meta props=C05,C06 tier=quick kind=K timeout=1500 mem=12 unwind=10 unwindset="seq_io::fill_buf:3" bounds="fasta::Reader::seek from every state, every window (capacity 4, every file offset) of every file <= 8 bytes to every target byte 0..=n (in-buffer shortcut and real seek + refill)"
+    /// @meta props=C05,C04,C06:t tier=quick kind=K timeout=1500 mem=12 unwind=10 unwindset="seq_io::fill_buf:3" bounds="fasta::Reader::seek from every state, every window (capacity 4, every file offset) of every file <= 8 bytes to every target byte 0..=n (in-buffer shortcut and real seek + refill)"
     fak_seek_f8_c4 => k_seek_f8_c4;
 }
